@@ -93,10 +93,14 @@ package stdmath
 //@   loop 1 invariant 0 <= i + 1 && i <= len(code) && len(code) <= len(s) && len(code) <= 2 && (len(s) >= 2 ==> len(code) == 2) && (len(s) < 2 ==> len(code) == len(s))
 //@   loop 1 invariant (i < 2 && len(code) >= 2 ==> !in_dom(ops, s[0:2])) && (i < 1 && len(code) >= 1 ==> !in_dom(ops, s[0:1]))
 
+// Parentheses first: the text of a parenthesised group is kept as ONE group token and tokenised on
+// its own later, so a token is only ever emitted at nesting depth 0 - whatever stands inside a
+// group (a unary minus after an operator, an operator) cannot surface between the outer tokens
 //@ func tokenizeExpr
 //@   pure
 //@   ensures result1 == nil ==> wf_tok(result0)
-//@   loop 1 invariant 0 <= i && i <= len(s) && wf_tok(ret) && fresh(ret)
+//@   assert at "ret = append(ret, token{"#* : parens == 0
+//@   loop 1 invariant 0 <= i && i <= len(s) && wf_tok(ret) && fresh(ret) && 0 <= parens && parens <= i
 
 //@ func (*exprVal).Eval
 //@   pure
